@@ -20,6 +20,7 @@ func Bool(label string) bool
 func Str(label string) string
 func Bytes(label string, max int) []byte
 func BytesN(label string, n int) []byte
+func OpaqueBytes(n int) []byte
 func Choose(label string, n int) int
 func Assume(c bool)
 func Assert(id string, c bool)
